@@ -568,7 +568,7 @@ def resolve_symmetric(family, findings, stats):
     stats.pop('_az', None)
 
 
-def normaliser_check(family, p0, ests, findings, stats):
+def normaliser_check(family, p0, ests, findings, stats, band=None):
     """`ests`: [(from-point, (c, relative error) or None)].  A reported density that is a constant
     multiple of the jump law gives the right Hastings factor; one whose factor depends on the
     from-point does not."""
@@ -581,11 +581,22 @@ def normaliser_check(family, p0, ests, findings, stats):
     for (x, (c1, r1)), (y, (c2, r2)) in zip(ests[:-1], ests[1:]):
         stats['normaliser_pairs'] = stats.get('normaliser_pairs', 0) + 1
         if not abs(c1 - c2) <= (r1 + r2) * max(c1, c2):
-            findings.append(('%s:normaliser' % family,
+            key = '%s:normaliser' % family
+            extra = ''
+            if band and band.get('accepted_outside_box'):
+                # the accepted region is the chord plus the isclose band of __contains__, the reported
+                # density is normalised on the chord only
+                key = 'BoundedEigenvector:isclose-band-not-in-reported-density'
+                extra = ' (%d accepted jumps ended outside the box, by up to %.3g: __contains__ accepts an isclose ' \
+                        'band beyond the faces, the reported density is normalised on the chord inside the box)' % (
+                            band['accepted_outside_box'], band['max_excess'])
+            findings.append((key,
                              '%s: reported pdf / jump law = %.6g from %r but %.6g from %r: the Hastings factor '
-                             'q(x|x\')/q(x\'|x) is off by %.6g' % (family, c1, x, c2, y, c1 / c2 if c2 else float('nan')),
+                             'q(x|x\')/q(x\'|x) is off by %.6g%s' % (family, c1, x, c2, y,
+                                                                    c1 / c2 if c2 else float('nan'), extra),
                              dict(describe(family, p0, x), kind='normaliser', other=y, c_from=c1, c_other=c2,
-                                  tolerance=(r1 + r2) * max(c1, c2))))
+                                  tolerance=(r1 + r2) * max(c1, c2), **(band or {}))))
+            return
 
 
 def full_cov_args(family, p0, x, findings, stats, tag):
@@ -864,6 +875,9 @@ def eigen_law(family, p0, x, N, findings, stats, every=40, on_boundary=False, ce
         plan = EigenPlan(ind, zgrid(N))
         p._verif_gen = Gen(plan)
         steps, some = [], []
+        lob = numpy.asarray(p0._lowerbnd, dtype=float) if getattr(p0, '_lowerbnd', None) is not None else None
+        hib = numpy.asarray(p0._upperbnd, dtype=float) if lob is not None else None
+        n_out, max_out, probe_out = 0, 0.0, []
         k = 0
         while True:
             p._verif_gen.calls = []
@@ -875,12 +889,33 @@ def eigen_law(family, p0, x, N, findings, stats, every=40, on_boundary=False, ce
                 if c[0] == 'choice' and len(probs_seen) < 4:
                     probs_seen.append(c[2])
             steps.append(float(p._dx))
+            if lob is not None:
+                ov = numpy.array([float(out[k_]) for k_ in names])
+                ex = float(max(numpy.max(lob - ov), numpy.max(ov - hib), 0.0))
+                if ex > 0:
+                    n_out += 1
+                    max_out = max(max_out, ex)
+                    if len(probe_out) < 6:
+                        probe_out.append(out)
             if k % every == 0 and len(some) < 40:
                 some.append((float(p._dx), float(p.pdf(out, x)), float(p.pdf(x, out)), out))
             k += 1
         stats['jumps'] = stats.get('jumps', 0) + len(steps)
         stats['grid_points'] = stats.get('grid_points', 0) + N
         nacc = len(steps)
+        band = dict(accepted_outside_box=n_out, max_excess=max_out) if lob is not None else {}
+        # jumps that ended outside the declared box (accepted through the `isclose` band of
+        # `__contains__`): the density reported for them must at least be a number
+        for o_ in probe_out:
+            v_ = float(p.pdf(o_, x))
+            stats['pdf_evaluations'] = stats.get('pdf_evaluations', 0) + 1
+            if not math.isfinite(v_):
+                findings.append(('BoundedEigenvector:nan-density-outside-box',
+                                 '%s: jump from %r along eigenvector %d returned %r, outside the box by %.3g (accepted by '
+                                 'the isclose band of __contains__), and pdf(x\'|x) = %r' % (
+                                     family, x, ind, {k_: float(w_) for k_, w_ in o_.items()}, max_out, v_),
+                                 dict(describe(family, p0, x), kind='nan-density-outside-box', ind=ind, **band)))
+                break
         if nacc < 200:
             stats['skipped_low_acceptance'] = stats.get('skipped_low_acceptance', 0) + 1
             stats['skipped_low_acceptance:' + family] = stats.get('skipped_low_acceptance:' + family, 0) + 1
@@ -913,17 +948,18 @@ def eigen_law(family, p0, x, N, findings, stats, every=40, on_boundary=False, ce
             stats.setdefault('trouble', []).append('%s: a step inside the accepted range was rejected' % family)
             continue
         if not numpy.isfinite(vals).all():
-            findings.append(('%s:nonfinite' % family,
+            findings.append((('BoundedEigenvector:nan-density-outside-box' if n_out else '%s:nonfinite' % family),
                              '%s: reported pdf of the most recent jump is not finite for a step inside the accepted '
-                             'range (eigenvector %d, from %r)' % (family, ind, x),
-                             dict(describe(family, p0, x), kind='nonfinite', ind=ind)))
+                             'range (eigenvector %d, from %r; %d accepted jumps ended outside the box, by up to %.3g)' % (
+                                 family, ind, x, n_out, max_out),
+                             dict(describe(family, p0, x), kind='nonfinite', ind=ind, **band)))
             continue
         h = (b - a) / M
         cum, cumc = simpson_cum(vals, h, per)
         C = float(cum[-1])
         qerr = numpy.abs(cum - cumc)
         # [a, b] carries all accepted grid points; the law puts at most 2/(nacc-1) outside
-        cs.append((ind, C, 2.0 * qerr[-1] / C + 3.0 / (nacc - 2) + 1e-9))
+        cs.append((ind, C, 2.0 * qerr[-1] / C + 3.0 / (nacc - 2) + 1e-9, band))
         worst = None
         for kk in range(cells + 1):
             edge = ts[kk * per]
@@ -941,7 +977,7 @@ def eigen_law(family, p0, x, N, findings, stats, every=40, on_boundary=False, ce
                              'integrates to %.5f up to step %.4f, the jump law gives %.5f (tolerance %.2g)' % (
                                  family, ind, x, worst[3], worst[1], worst[2], worst[4]),
                              dict(describe(family, p0, x), kind='law-eigen', ind=ind, N=N, step=worst[1],
-                                  reported_cdf=worst[3], measured_cdf=worst[2], tolerance=worst[4], total=C)))
+                                  reported_cdf=worst[3], measured_cdf=worst[2], tolerance=worst[4], total=C, **band)))
         # the reverse: density reported for x' -> x right after x -> x' must be the density the
         # proposal reports for the jump x' -> x itself (same direction, step -dx)
         for dx, fw, rv, out in some[2:-2:max(1, len(some) // 12)]:
@@ -1318,9 +1354,11 @@ def run_unit(unit):
                     y = point(kind, doms, names, rng)
                     cs2 = eigen_law(fam, p0, y, unit['N'], findings, stats, every=unit.get('every', 40),
                                     cells=cells, per=per, which=1)
-                    ests = [(dict(x, eigenvector=i), (c, r)) for i, c, r in cs] + \
-                           [(dict(y, eigenvector=i), (c, r)) for i, c, r in cs2]
-                    normaliser_check(fam, p0, ests, findings, stats)
+                    ests = [(dict(x, eigenvector=i), (c, r)) for i, c, r, b in cs] + \
+                           [(dict(y, eigenvector=i), (c, r)) for i, c, r, b in cs2]
+                    band = {'accepted_outside_box': sum(b.get('accepted_outside_box', 0) for _, _, _, b in cs + cs2),
+                            'max_excess': max([b.get('max_excess', 0.0) for _, _, _, b in cs + cs2] + [0.0])}
+                    normaliser_check(fam, p0, ests, findings, stats, band)
                 elif fam in SPHERE:
                     if unit.get('where') == 'lower':
                         x = {names[0]: x[names[0]], names[1]: 1e-3}      # next to the pole
@@ -1333,6 +1371,15 @@ def run_unit(unit):
     except (Runaway, KeyError) as e:
         stats['machinery_trouble'] = stats.get('machinery_trouble', 0) + 1
         stats.setdefault('trouble', []).append('%s %r: %r' % (fam, unit, e))
+    except ValueError as e:
+        if 'NaN acceptance' in str(e):
+            # a real chain died because a reported density was NaN at a point its own jump produced
+            findings.append(('%s:nan-acceptance' % fam,
+                             '%s: a real chain (forced history %s) raised "NaN acceptance!": the reported density of a '
+                             'proposed jump is NaN' % (fam, unit.get('pattern')),
+                             dict(kind='nan-acceptance', family=fam, error=str(e)[:600])))
+        else:
+            raise
     resolve_symmetric(fam, findings, stats)
     stats['units'] = 1
     stats['family:' + fam] = 1
